@@ -137,7 +137,7 @@ def gen_scenario(rng, focus=None, entry=None):
     sc.add("overpop", use_overpop, dy(rng, ["1/4", "1/2", "3/4", "1/8", "0", "1"]), dy(rng), rng.choice(["1", "2", "1/2"]))
     sc.add("movements", use_moves)
     sc.add("treatments", use_treat)
-    mfreq = rng.choice(["month", "year", "every_n_steps", "every_step", "final_step", "week"])
+    mfreq = rng.choice(["month", "year", "every_n_steps", "every_step", "final_step", "month", "every_step", "every_n_steps", "week"] if rng.random() < 0.15 else ["month", "year", "every_n_steps", "every_step", "final_step"])
     sc.add("mortality", use_mort, mfreq, rng.choice([1, 2, 3]))
     sc.add("spreadrates", use_sr, rng.choice(["year", "every_n_steps", "month"]), rng.choice([1, 2]))
     sc.add("quarantine", use_q, rng.choice(["year", "every_n_steps", "month"]), rng.choice([1, 2]))
